@@ -20,7 +20,11 @@ GRID_VALUES = {
 @st.composite
 def marshal_case(draw, tier='quick', allow_h=True, decode_side=False):
     depth = 3 if tier == 'quick' else draw(st.sampled_from([2, 3, 3, 4, 5]))
-    if decode_side:
+    if decode_side and draw(st.integers(0, 24)) == 0:
+        sig, trees = draw(S.big_values())
+        if draw(st.booleans()):
+            sig, trees = 'y' + sig, [7] + trees
+    elif decode_side:
         n = draw(st.integers(1, 3))
         types = [draw(S.complete_type(depth, allow_h=True)) for _ in range(n)]
         sig = ''.join(types)
@@ -29,7 +33,7 @@ def marshal_case(draw, tier='quick', allow_h=True, decode_side=False):
             sig = types[0]
         trees = [draw(S.decode_side_tree(t)) for t in types]
     else:
-        sig, trees = draw(S.typed_values(max_types=4, depth=depth, allow_h=allow_h, limits=True))
+        sig, trees = draw(S.typed_values(max_types=4, depth=depth, allow_h=allow_h, limits=True, big=True))
     return {
         'sig': sig, 'trees': trees,
         'pres': draw(S.presentation),
@@ -59,6 +63,8 @@ def classify_marshal(case):
     labels.append('depth>=3' if d >= 3 else 'depth<3')
     if 'a' * 32 in sig or '(' * 32 in sig:
         labels.append('at_nesting_limit')
+    if len(repr(case['trees'])) > 2000:
+        labels.append('big_value')
     canon = repr(case['trees'])
     if '[]' in canon:
         labels.append('empty_container')
